@@ -220,6 +220,7 @@ func TestCheck(t *testing.T) {
 		"crash model as in C04 (process dies between two durable datastore writes; caches are lost); the executor is external and survives",
 		"before the first crash the events arrive in one of three canonical orders (interleaved ascending, all data then headers, descending); after a reboot the complete event set is delivered again in every order within the order budget",
 		"chains without two identical non-empty transaction lists (that stall is C02's known finding)",
+		"ingress level: DA-only full node with all loops under the cooperative scheduler, blobs within <=1/2 deviations from the in-order placement on 3 DA heights (incl. 'everything already on the DA layer'), harness-side event queues with <=1 deviation from the canonical delivery order, one crash before any durable write, reboot without caches; liveness under continued operation (the chain's next block is published afterwards)",
 	}
 	var jobs []string
 	for k := 1; k <= nAbove; k++ {
@@ -232,10 +233,19 @@ func TestCheck(t *testing.T) {
 	if r.ReplayPath() != "" {
 		var h struct {
 			Pattern string
+			Ingress bool
 			Choices []explore.Point
 		}
 		if _, err := r.LoadReplay(&h); err != nil {
 			r.EngineError(err.Error())
+		} else if h.Ingress {
+			pc, _ := world.BuildChain(h.Pattern+"e", 1)
+			explore.ReplayOne(h.Choices, func(c *explore.Ctx) {
+				if o := ingressBody(t, c, pc); o.fail != nil {
+					fmt.Println(o.fail.Msg, o.trace)
+					r.Report(vf.Violation{Clause: o.fail.Clause, Tags: o.tags, Msg: o.fail.Msg, History: h})
+				}
+			})
 		} else if pc, err := world.BuildChain(h.Pattern, 1); err != nil {
 			r.EngineError(err.Error())
 		} else {
@@ -284,6 +294,43 @@ func TestCheck(t *testing.T) {
 			caps = append(caps, pt+": "+st.Capped)
 		}
 	}
+	// ingress level: DA-only full node, crash anywhere in block application, recovery by its own DA scan
+	l2budgets := vf.Pick(r, map[string]int{"place": 1, "order": 1, "crash": 1}, map[string]int{"place": 2, "order": 1, "crash": 1})
+	var l2 explore.Stats
+	for _, pt := range vf.Pick(r, []string{"ab"}, []string{"ab", "ea"}) {
+		pc, err := world.BuildChain(pt+"e", 1)
+		if err != nil {
+			r.EngineError(err.Error())
+			continue
+		}
+		left := time.Until(deadline)
+		if left <= 0 {
+			caps = append(caps, "deadline reached before ingress pattern "+pt)
+			break
+		}
+		st := explore.Explore(explore.Config{Budgets: l2budgets, Deadline: left}, func(c *explore.Ctx) {
+			o := ingressBody(t, c, pc)
+			if o.fail != nil {
+				r.Report(vf.Violation{Clause: o.fail.Clause, Tags: append(o.tags, "ingress-level"), Msg: fmt.Sprintf("[ingress level, chain genesis+%q] %s\n %s", pt, o.fail.Msg, strings.Join(o.trace, " ")), Cost: c.Cost(), History: map[string]any{"Pattern": pt, "Ingress": true, "Choices": c.Choices()}})
+				r.Outcome("L2:fail:" + o.fail.Clause)
+				return
+			}
+			r.Outcome("L2:" + pt + ":" + strings.Join(o.trace, " "))
+			if strings.Contains(strings.Join(o.trace, " "), "CRASH") {
+				r.Sample(map[string]any{"level": "ingress", "chain": "genesis+" + pt, "trace": strings.Join(o.trace, " ")})
+			}
+		})
+		l2.Executions += st.Executions
+		l2.Points += st.Points
+		for _, m := range st.Nondet {
+			r.EngineError("nondeterminism (ingress level): " + m)
+		}
+		if st.Capped != "" {
+			caps = append(caps, "ingress "+pt+": "+st.Capped)
+		}
+	}
+	total.Executions += l2.Executions
+	total.Points += l2.Points
 	r.Finish(vf.Coverage{
 		Evaluations: total.Executions, DistinctNontrivial: int64(r.DistinctOutcomes()), States: total.Executions, Transitions: total.Points,
 		Rule:       "for every producer chain pattern (1..n blocks above genesis over {empty,A,B} without repeated non-empty lists) × 3 pre-crash delivery orders: every crash point among all durable writes of block application (recurring during recovery, budget `crash`), then the complete event set again in every order within the order budget; distinct = distinct traces",
